@@ -1348,6 +1348,12 @@ def _per_element_keep(self, rule, body, make_guard, descr):
         loop_push = [bb for bb in pushes.blocks(body) if bb in g.reach(tuple(d for d, _ in g.succ[bb]))]
         if loop_push:
             ok = self.gate(rule, body, BlockSink(lambda b: loop_push, "push into the kept collection"), [[gd]], descr=descr + " (loop form)", per_iteration=True)
+            # ... and the loop looks at *every* element: a `break` behind a failing element drops the elements after it
+            for nid, (st_, common, rb) in loop_early_exits(body).items():
+                if common and set(loop_push) & rb:
+                    ok = False
+                    self.viol(rule, "loop-stops-early", "%s: the filtering loop can be left before its source is exhausted (break): elements behind that point are dropped "
+                              "without being tested" % body.path, body, g.term(nid)["l"])
             kept = set()
             for bb in loop_push:
                 kept |= set(ta.ref_of.get(op_local(g.term(bb)["args"][0]), ()))
@@ -1660,6 +1666,45 @@ def loops_over(F, body, source_pred):
     return out
 
 
+def loop_early_exits(body, nb_id=None):
+    """For each `for`/`while let` loop of `body` (an `Iterator::next` block whose result is branched on): the non-cleanup blocks
+    that both the exhausted side (`None`) and the loop body (without coming round to `next`) can reach, minus the pure
+    drop/goto tail in front of `return` that early `return`s share with the normal exit.  Non-empty = the loop can be left by
+    `break` (or an equivalent jump behind the loop) before the iterator is exhausted.  Returns {next_block_id: (starts, common)}."""
+    prep(body)
+    g = cfg_of(body)
+    rets = {x["id"] for x in body.blocks if x["term"]["k"] == "return"}
+    tail = set(rets)
+    ch = True
+    while ch:
+        ch = False
+        for x in body.blocks:
+            if x["id"] in tail or x["cleanup"]:
+                continue
+            if x["term"]["k"] in ("goto", "drop") and not [s_ for s_ in x["stmts"] if s_["rv"]["k"] != "storage"] and g.succ[x["id"]] and all(d in tail for d, _ in g.succ[x["id"]]):
+                tail.add(x["id"])
+                ch = True
+    out = {}
+    for nb in body.blocks:
+        t = nb["term"]
+        if nb["cleanup"] or t["k"] != "call" or not (t.get("ngen") or "").endswith("iterator::Iterator::next") or len(t["d"]) != 1:
+            continue
+        if nb_id is not None and nb["id"] != nb_id:
+            continue
+        tr = Tracker(body)
+        tr.seed_call_result(t["d"][0], ("None",), False)
+        tr.run()
+        if not (tr.accept and tr.reject):
+            continue
+        starts = tuple(d for _, d in tr.reject)
+        exits = tuple(d for _, d in tr.accept)
+        rn = g.reach(exits, avoid={nb["id"]})
+        rb = g.reach(starts, avoid={nb["id"]})
+        common = {c for c in (rn & rb) - tail if not g.blocks[c]["cleanup"]}
+        out[nb["id"]] = (starts, common, rb)
+    return out
+
+
 def receiver_chain_calls(body, local, limit=60, stop=()):
     """callee names met going back from `local` through copies, borrows and the *receiver* (first argument) of each producing call — the
     adaptor chain of an iterator, without the provenance of the other arguments of the calls on it"""
@@ -1858,6 +1903,15 @@ def closure_truth_table(cl, classify, get_pats=("std::collections::hash::map::Ha
                     env[d] = rv["a"][1] == "true"
                 elif rv["k"] == "use" and rv["a"][0] in ("cp", "mv") and len(rv["a"][1]) == 1:
                     env[d] = env.get(rv["a"][1][0])
+                    for kind_ in ("opt", "res"):
+                        if (kind_, rv["a"][1][0]) in env:
+                            env[(kind_, d)] = env[(kind_, rv["a"][1][0])]
+                elif rv["k"] == "agg" and rv.get("ak") == "adt" and rv.get("adt") == "core::option::Option" and rv.get("variant") in ("Some", "None"):
+                    env[("opt", d)] = rv["variant"] == "Some"     # a freshly built `Some(x)` / `None`: its discriminant is known
+                    env[d] = None
+                elif rv["k"] == "agg" and rv.get("ak") == "adt" and rv.get("adt") == "core::result::Result" and rv.get("variant") in ("Ok", "Err"):
+                    env[("res", d)] = rv["variant"] == "Ok"
+                    env[d] = None
                 elif rv["k"] == "un" and rv["op"] == "Not":
                     v = env.get(op_local(rv["a"]))
                     env[d] = None if v is None else (not v)
